@@ -487,8 +487,13 @@ def scen_identity(rng, index=None):
     k = rng.randrange(10 ** 6) if index is None else index
     a, b, _same = ARG_PAIRS[k % len(ARG_PAIRS)]
     p = rng.choice(PATHS2)
-    mode = (k // len(ARG_PAIRS)) % 3          # 0: keyword, 1: positional, 2: positional 'opt', v against keyword opt=v
-    use_bf = (k // (3 * len(ARG_PAIRS))) % 2 == 0
+    n = len(ARG_PAIRS)
+    if k % (5 * n) < 4 * n:
+        mode = (k // n) % 2                   # 0: keyword, 1: positional
+        use_bf = (k // (2 * n)) % 2 == 0
+    else:
+        mode = 2                              # positional 'opt', v against keyword opt=v
+        use_bf = k % 2 == 0
 
     def call(v, first=True):
         if mode == 2:
@@ -852,15 +857,19 @@ def scen_double_failure(rng):
     bookkeeping of the two failures must release every reservation, or the stale answers about G are served"""
     g = rng.choice(NAMES)
     e_, d_ = rng.sample(NAMES + ['ab'], 2)
-    outer = '%s/%s/out' % (g, e_)
-    inner = '%s/%s/%s' % (g, d_, rng.choice(['helper', 'deep/helper']))
+    # the deepest common ancestor of the two targets is G itself, or lies one or two levels below G
+    mid = rng.choice(['', '', 'm/', 'm/n/'])
+    if mid and rng.random() < 0.3:
+        d_ = e_                                  # ... or the two targets share their directory
+    outer = '%s/%s%s/out' % (g, mid, e_)
+    inner = '%s/%s%s/%s' % (g, mid, d_, rng.choice(['helper', 'deep/helper']))
     inner_body = rng.choice([[['raise', 4]], [], [['w', None], ['raise', 9]]])
     outer_tail = rng.choice([[['raise', 5]], [['raise', 2]], []])       # raises, or returns without writing
-    looks = [_q('is_dir', g), _q('exists', g), _q('list_dir', '')] + _probe(rng, [g, '%s/%s' % (g, e_), '%s/%s' % (g, d_), outer, inner], 2)
+    looks = [_q('is_dir', g), _q('exists', g), _q('list_dir', '')] + _probe(rng, [g, '%s/%s%s' % (g, mid, e_), '%s/%s%s' % (g, mid, d_), outer, inner] + (['%s/%s' % (g, mid.rstrip('/'))] if mid else []), 2)
     funcs = [
         _fn('f0', [_sb(1, catch=True)] + _probe(rng, [g, ''], 1)),
         _fn('f1', [_bf(outer, 2, catch=True)] + looks),
-        _fn('f2', [_bf(inner, 3, catch=True)] + ([_bf('%s/%s/ok' % (g, d_), 4, catch=True)] if rng.random() < 0.3 else []) + outer_tail),
+        _fn('f2', [_bf(inner, 3, catch=True)] + ([_bf('%s/%s%s/ok' % (g, mid, d_), 4, catch=True)] if rng.random() < 0.3 else []) + outer_tail),
         _fn('f3', inner_body),
         _fn('f4', [['w', None]]),
     ]
